@@ -2,9 +2,10 @@
    ExtrOcamlBasic only *)
 Require Extraction.
 Require Import ExtrOcamlBasic.
-Require Import Base Overlap Suggestion LintJson Ignore Wasm C16Ctx C16Api.
+Require Import Base Overlap Suggestion LintJson Ignore Wasm C16Ctx C16Api Stats C19Record C16Stats.
 Extraction Language OCaml.
 Extraction "../ocaml/gen/c16_model.ml" new step
   print_wlint print_span print_wsuggestion print_ignored
   lint_from_json span_from_json suggestion_from_json ignored_from_json
-  document context_of run_ctx_classes xstep.
+  document context_of run_ctx_classes xstep
+  drv_cstep drv_line drv_ser.
